@@ -50,16 +50,19 @@ PROPS.update({
     },
     "C04": {
         "title": "A completed delivery is final",
-        "verus": [("recv", ["O-C04-"])],
+        "verus": [("recv", ["O-C04-"]), ("send", ["O-C04-"])],
         "level": "proof",
-        "technique": "deductive verification (Verus/Z3) of contracts on the extracted receiver functions; finalisation modelled by the precondition of its stub",
+        "technique": "deductive verification (Verus/Z3) of contracts on the extracted receiver functions (finalize_receive verified in place, reachable only through its precondition) and of the sender's delivery-code frame",
         "design_ref": "DESIGN.md 4/C04",
-        "level_text": "Partial, proof of function contracts: the completion check (called on every file-data, EOF and metadata PDU) enters finalisation "
-                      "(checksum, copy to the destination name, filestore requests) only from the data-reception state with metadata and EOF in hand and "
-                      "every byte of [0,size) held, leaves that state when it does, and is a no-op in every later state; no verified function returns to "
-                      "the data-reception state. NOT decided: the unacknowledged-mode EOF branch of process_pdu, the daemon's re-spawn of an ended "
-                      "transaction, and the two-party sentence (sender reports success only if its receiver did).",
-        "level_note": VERUS_NOTE + "finalize_receive, is_file_transfer, send_indication are stubs (bodies not verified).",
+        "level_text": "Partial, proof of function contracts: finalisation (checksum, copy to the destination name, filestore requests: finalize_receive, a verified body) has the "
+                      "precondition 'data-reception sub-state' and, in acknowledged mode, 'metadata and EOF in hand and every byte of [0,size) held'; the completion check "
+                      "(called on every file-data, EOF and metadata PDU) and both EOF branches of process_pdu discharge it, leave that sub-state when they finalise, and are "
+                      "no-ops in every later state; every function of the receiver unit proves that the data-reception sub-state is never re-entered: late or duplicate file "
+                      "data, EOF, metadata or prompts cannot re-run the checksum, the copy or the filestore requests. SENDER: its delivery code - what its Finished indication "
+                      "reports (O-C18-outcome) - changes only by taking over the delivery code of a Finished PDU from the receiver; every other function leaves it alone, so a "
+                      "sender reports a complete delivery only if a receiver's Finished PDU said so. NOT decided: the daemon's re-spawn of an ended transaction (a PDU for a "
+                      "finished-and-removed transaction starts a new receive transaction: history outside the unit), and the two-party composition.",
+        "level_note": VERUS_NOTE + "verify_checksum, finalize_file, is_file_transfer, send_indication are stubs (bodies not verified).",
     },
     "C05": {
         "title": "Every well-formed PDU survives encode then decode unchanged",
